@@ -149,24 +149,27 @@ Definition step_cleanup (k : skind) (sid : nat) : list (nat * bool) :=
   match k with KCleanOk => [(sid, false)] | KCleanRaise => [(sid, true)] | _ => [] end.
 
 (* returns (state, status, scenario_skipped_by_this_step, events) *)
+Definition run_defined_step (cfg : config) (st : rstate) (wip : bool) (scid : nat) (k : skind) (id : nat)
+  : rstate * status * bool * list event :=
+  let '(st1, rb, eb) := run_hook cfg st HBeforeStep id in
+  let '(st2, status, skip, ec) :=
+    if rb then (st1, untested, false, [])
+    else (set_aborted (add_cleanups st1 (step_cleanup k id)) (step_aborts k),
+          step_outcome wip k,
+          match k with KSkip => true | _ => false end,
+          [EStep k id scid wip]) in
+  let '(st3, ra, ea) := run_hook cfg st2 HAfterStep id in
+  let status' := if rb || ra then hook_error else status in
+  (st3, status', skip,
+   EFmt (FMatch true) :: eb ++ ec ++ ea ++ [EFmt (FResult id status')]).
+
 Definition run_step (cfg : config) (st : rstate) (wip : bool) (scid : nat) (s : step)
   : rstate * status * bool * list event :=
   let id := st_id s in
   match st_kind s with
   | KUndefined =>
       (st, undefined, false, [EUndef id; EFmt (FMatch false); EFmt (FResult id undefined)])
-  | k =>
-      let '(st1, rb, eb) := run_hook cfg st HBeforeStep id in
-      let '(st2, status, skip, ec) :=
-        if rb then (st1, untested, false, [])
-        else (set_aborted (add_cleanups st1 (step_cleanup k id)) (step_aborts k),
-              step_outcome wip k,
-              match k with KSkip => true | _ => false end,
-              [EStep k id scid wip]) in
-      let '(st3, ra, ea) := run_hook cfg st2 HAfterStep id in
-      let status' := if rb || ra then hook_error else status in
-      (st3, status', skip,
-       EFmt (FMatch true) :: eb ++ ec ++ ea ++ [EFmt (FResult id status')])
+  | k => run_defined_step cfg st wip scid k id
   end.
 
 (* ------------------------------------------------------------------ Scenario.run: the step loop *)
@@ -208,6 +211,15 @@ Fixpoint steps_loop (cfg : config) (st : rstate) (wip dry : bool) (scid : nat)
 
 Definition mem_nat (x : nat) (l : list nat) : bool := existsb (Nat.eqb x) l.
 
+(* the `if not skip_scenario_untested: for step in self.all_steps` part *)
+Definition scenario_steps (cfg : config) (st1 : rstate) (skip_untested hf run_sc wip : bool)
+           (id : nat) (all_steps : list step)
+  : rstate * loopst * list status * list event :=
+  if skip_untested
+  then (st1, mkLoop false hf false, map (fun _ => untested) all_steps, [])
+  else steps_loop cfg st1 wip (run_sc && c_dry cfg) id
+                  (mkLoop (run_sc && negb (c_dry cfg)) hf false) all_steps.
+
 (* ------------------------------------------------------------------ Scenario.run *)
 (* all_steps = inherited background ++ own; eff = effective tags; own = own tags
    (rows: rendered outline tags ++ examples tags); returns (state, result, failed, events) *)
@@ -232,10 +244,7 @@ Definition run_scenario (cfg : config) (st : rstate) (id : nat) (all_steps : lis
     else [] in
   let wip := mem_nat (c_wip cfg) eff in
   let '(st2, l2, statuses, ev_steps) :=
-    if skip_untested
-    then (st1, mkLoop false hf false, map (fun _ => untested) all_steps, [])
-    else steps_loop cfg st1 wip (run_sc && dry) id
-                    (mkLoop (run_sc && negb dry) hf false) all_steps in
+    scenario_steps cfg st1 skip_untested hf run_sc wip id all_steps in
   let ov1 : option status := if negb run_sc && own_steps_empty then Some skipped else None in
   let '(st3, hf2, ev_after) :=
     if hooks_called then
